@@ -1,8 +1,12 @@
 // C02 — A signature verifies only for the document hash and level it was issued for.
 #include "ksi_util.hpp"
 #include "sigmut.hpp"
+#include "pki.hpp"
+#include "netsim.hpp"
 extern "C" {
 #include <ksi/policy.h>
+#include <ksi/publicationsfile.h>
+#include <ksi/pkitruststore.h>
 #include <ksi/signature_helper.h>
 }
 using namespace vf;
@@ -105,10 +109,18 @@ void harness_case(Dec &d, Case &c) {
     int pol = (int)d.pick(6); int api = (int)d.pick(API_COUNT);
     if (api == API_DATAHASH || api == API_DOCUMENT) { pol = 5; level = 0; }
     if (api == API_DOCUMENT) { // deviation = other document bytes; the hash is computed by the SDK with the signature's algorithm
-        bool other = hd != HD_EQUAL; Bytes doc2 = docBytes; if (other) { if (doc2.empty()) doc2.push_back(1); else doc2[bit % doc2.size()] ^= (uint8_t)(1u << (bit % 8)); }
-        Ctx ctx; Bytes enc = s.enc(); HeapBuf in(enc); KSI_Signature *sig = nullptr; if (KSI_Signature_parseWithPolicy(ctx, in.p, in.n, KSI_VERIFICATION_POLICY_EMPTY, nullptr, &sig) != KSI_OK) { VF_FAIL(c, "C02:reference-signature-refused", "reference-built signature did not parse"); return; }
-        int res = KSI_Signature_verifyDocument(sig, ctx, doc2.data(), doc2.size()); KSI_Signature_free(sig);
-        if (other && res == KSI_OK) VF_FAIL(c, "C02:wrong-input-accepted:GEN-01:verifyDocument", "verifyDocument accepted another document");
+        bool other = hd != HD_EQUAL; Bytes doc2 = docBytes; bool emptyDoc = other && bit % 5 == 0; if (emptyDoc) { doc2.clear(); c.cls("deviation:empty-document"); } else if (other) { if (doc2.empty()) doc2.push_back(1); else doc2[bit % doc2.size()] ^= (uint8_t)(1u << (bit % 8)); }
+        // the context can download a publications file (signed with the test PKI) that lists the signature's publication: the general policy that verifyDocument applies can then
+        // reach OK for the right document (signatures with a publication record), which makes a wrongly accepted document visible instead of masking it by "no anchor available"
+        resetSim(); Ctx ctx; bool anchored = false;
+        if (s.hasPub) { TestPki &pki = TestPki::get(); Bytes file; static const char mg[] = "KSIPUBLF"; file.assign(mg, mg + 8); Tlv h(0x701); h.add(Tlv::u64(0x01, 2)); h.add(Tlv::u64(0x02, 1400000000)); h.encode(file); PubRecord pr; pr.data = s.pub.data; pr.toTlv(0x703).encode(file);
+            Bytes sg = pki.signDetached(pki.s[0], file, {}); Tlv::raw(0x704, sg).encode(file); static Bytes served; served = file; sim::http().onRequest = [](const sim::HttpRequest &) { sim::HttpReply rp; rp.body = served; return rp; };
+            KSI_PKITruststore *ts = nullptr; KSI_PKITruststore_new(ctx, 0, &ts); KSI_PKITruststore_addLookupFile(ts, pki.fileA.c_str()); KSI_CTX_setPKITruststore(ctx, ts); KSI_CertConstraint cons[] = {{(char *)"1.2.840.113549.1.9.1", (char *)"publications@verif.test"}, {nullptr, nullptr}}; KSI_CTX_setDefaultPubFileCertConstraints(ctx, cons);
+            KSI_CTX_setPublicationUrl(ctx, "http://pub.example.test/publications.bin"); anchored = true; c.cls("verifyDocument:publication-anchored"); }
+        Bytes enc = s.enc(); HeapBuf in(enc); KSI_Signature *sig = nullptr; if (KSI_Signature_parseWithPolicy(ctx, in.p, in.n, KSI_VERIFICATION_POLICY_EMPTY, nullptr, &sig) != KSI_OK) { VF_FAIL(c, "C02:reference-signature-refused", "reference-built signature did not parse"); return; }
+        static const unsigned char kNoBytes[1] = {0}; int res = KSI_Signature_verifyDocument(sig, ctx, doc2.empty() ? (const void *)kNoBytes : (const void *)doc2.data(), doc2.size()); KSI_Signature_free(sig);
+        if (other && res == KSI_OK) VF_FAIL(c, "C02:wrong-input-accepted:GEN-01:verifyDocument", std::string("verifyDocument accepted another document") + (emptyDoc ? " (the empty one)" : ""));
+        else if (!other && anchored && res != KSI_OK) VF_FAIL(c, "C02:verifyDocument:right-document-refused", "verifyDocument refused the signed document although the downloadable publications file lists the signature's publication res=" + num(res));
         c.cls(other ? "deviation:other-document" : "no-deviation"); c.cls("api:verifyDocument"); c.nontrivial = other; c.desc = std::string("verifyDocument ") + (other ? "other" : "same") + " doc len=" + num((long long)doc2.size()) + " alg=" + num(s.docHash()[0]); return;
     }
     int split = api == API_WITH_POLICY_CTX ? (int)d.pick(4) : (api == API_VERIFIER ? (int)d.pick(2) : 0);   // drawn last: older replay files decode to 0
